@@ -73,6 +73,10 @@ def cases(tier):
             cs.append(dict(kind='netlist', mode=mode, layout=layout))
         cs.append(dict(kind='die', mode=mode))
         cs.append(dict(kind='alloc', mode=mode))
+    # concrete dies with decimal coordinates whose area sum carries binary64 round-off (the geometry is computed in real floats; only
+    # the inherited tolerance is symbolic); all boundaries far apart: margin mode, any difference is a violation
+    for d in DECIMAL_DIES:
+        cs.append(dict(kind='diedec', mode='margin', die=d))
     for hist in (1, 2):
         for op in ('>=', '<='):
             for decomp in (False, True):
@@ -195,6 +199,27 @@ def body_die(I, case):
     r1, r2, r3 = run_three(I, probe, 4.0)
     I.reached('die')
     compare(I, 'die-load', r1, r2, r3, same_result)
+
+
+DECIMAL_DIES = [
+    dict(width=393.5, height=244.2, regions=[[32.8, 195.0, 9.7, 16.8, '#']]),
+    dict(width=393.0, height=185.7, regions=[[252.9, 106.4, 5.9, 11.3, 'dsp']]),
+    dict(width=386.0, height=201.1, regions=[[279.9, 145.3, 5.2, 2.3, '#'], [100.1, 50.3, 20.2, 10.1, 'dsp']]),
+]
+
+
+def body_diedec(I, case):
+    d = case['die']
+
+    def probe():
+        try:
+            die = Die(dict(width=d['width'], height=d['height'], regions=[list(r) for r in d['regions']]))
+        except AssertionError as e:
+            return ('rejected',)
+        return ('accepted', len(die.ground_regions), len(die.blockages), len(die.specialized_regions))
+    r1, r2, r3 = run_three(I, probe, min(d['width'], d['height']))
+    I.reached('die')
+    compare(I, 'decimal-die-load', r1, r2, r3, same_result)
 
 
 def body_alloc(I, case):
